@@ -26,6 +26,8 @@ def gen_network(rng, allow_general=True, allow_hill=True, nmax=4):
         lambda k: _ma(["A", "B"], ["A", "C"], k), lambda k: _ma(["C"], ["B"], k),
         lambda k: _ma(["A", "A", "B"], ["C", "C"], k), lambda k: _ma(["C", "C"], ["A", "A", "B"], k),
         lambda k: _ma(["A", "A", "A"], ["C"], k), lambda k: _ma([], ["B"], k), lambda k: _ma(["B"], [], k),
+        # the same multisets written with the repeated species not next to each other
+        lambda k: _ma(["A", "B", "A"], ["C", "C"], k), lambda k: _ma(["C", "C"], ["A", "B", "A"], k),
     ]
     rx, params = [], {}
     n = rng.randint(1, nmax)
